@@ -272,6 +272,11 @@ def build_dataset(case):
             obj.measurements = m.astype(np.int64)
         elif pick == 2:
             obj.measurements = m.astype(np.uint8 if m.min() >= 0 and m.max() < 256 else np.int32)
+    if (obj.measurements.shape[0] + obj.measurements.shape[1]) % 4 == 0:
+        # arrays in the byte order of the file they were read from (nifti, fif, MATLAB readers hand
+        # out big-endian arrays): the numbers are what is stored and read back
+        mm = obj.measurements
+        obj.measurements = mm.astype(mm.dtype.newbyteorder('>'))
     obj.descriptors = dict(obj.descriptors)
     for k, v in dec['desc'].items():
         obj.descriptors[k] = ob.decode_value(v)
@@ -771,6 +776,56 @@ def classify_stream(case):
     return (['kind:' + case['kind'], 'target:' + case['target'], 'header:%d' % case['header']], True)
 
 
+
+# ---------------------------------------------------------------------------------------
+# tall arrays: thousands of rows (searchlight RDMs, single-trial datasets, bootstrap evaluations)
+
+@st.composite
+def tall_case(draw):
+    return dict(kind=draw(st.sampled_from(['rdms', 'dataset'])),
+                rows=draw(st.sampled_from([4097, 4100, 5000, 8193, 9000, 12289])),
+                fmt=draw(st.sampled_from(['hdf5', 'hdf5', 'pkl'])),
+                target=draw(st.sampled_from(['path', 'bytesio'])))
+
+
+def check_tall(case):
+    from rsatoolbox.rdm import RDMs, load_rdm
+    from rsatoolbox.data.dataset import Dataset, load_dataset
+    n = case['rows']
+    if case['kind'] == 'rdms':
+        arr = np.arange(n, dtype=float)[:, None] * 8.0 + np.arange(3, dtype=float)[None, :] + 1.0
+        obj = RDMs(arr.copy(), rdm_descriptors={'vox': np.arange(n)[::-1].copy()})
+        loader, get = load_rdm, (lambda o: (o.dissimilarities, o.rdm_descriptors['vox']))
+    else:
+        arr = np.arange(n, dtype=float)[:, None] * 8.0 + np.arange(2, dtype=float)[None, :] + 1.0
+        obj = Dataset(arr.copy(), obs_descriptors={'trial': np.arange(n)[::-1].copy()})
+        loader, get = load_dataset, (lambda o: (o.measurements, o.obs_descriptors['trial']))
+    ext = '.h5' if case['fmt'] == 'hdf5' else '.pkl'
+    tgt = Target({'fmt': case['fmt'], 'target': case['target'], 'ext': ext, 'explicit_type': True,
+                  'overwrite': False})
+    try:
+        save_obj(obj, tgt, 'tall ' + case['kind'])
+        lo = load_obj(loader, tgt, 'tall ' + case['kind'])
+        a, dsc = get(lo)
+        a = np.asarray(a, dtype=float)
+        require(a.shape == arr.shape, 'tall %s: loaded shape %s, saved %s' % (case['kind'], a.shape, arr.shape),
+                'tall:shape')
+        bad = np.flatnonzero(~np.all(a == arr, axis=1))
+        require(bad.size == 0, 'tall %s (%d rows, %s): %d rows differ after reloading, first %d: loaded %s, '
+                'saved %s' % (case['kind'], n, case['fmt'], bad.size, int(bad[0]) if bad.size else -1,
+                              a[bad[0]] if bad.size else None, arr[bad[0]] if bad.size else None),
+                'tall:values')
+        require(np.array_equal(np.asarray(dsc), np.arange(n)[::-1]), 'tall %s: per-row descriptor differs '
+                'after reloading' % case['kind'], 'tall:descriptor')
+    finally:
+        tgt.close()
+
+
+def classify_tall(case):
+    return ['kind:' + case['kind'], 'fmt:' + case['fmt'], 'target:' + case['target'],
+            'rows:%d' % case['rows']], True
+
+
 # ---------------------------------------------------------------------------------------
 # exhaustive grid: one fixed object of every kind x format x target x extension x flags
 
@@ -879,6 +934,8 @@ SUBCHECKS = [
              thorough=3000,
              doc='existing target x overwrite flag: ValueError + unchanged bytes for HDF5 paths, '
                  'exactly the new object after overwrite=True (path or open file, both formats)'),
+    SubCheck('tall', tall_case(), check_tall, classify_tall, quick=10, thorough=100,
+             doc='RDMs / datasets with 4097-12289 rows (more than one I/O block) through both formats'),
     SubCheck('pkl_stream', stream_case(), check_stream, classify_stream, quick=120, thorough=1500,
              doc='two objects pickled one after the other into one open handle (optionally behind a '
                  'caller-written header) are read back in order from the position the caller set'),
